@@ -18,10 +18,11 @@ type modelAbort struct{ why string } // behaviour outside a model: path is incon
 type boundExceeded struct{ why string }
 type infraError struct{ why string }
 type blocked struct{}
+type crashPanic struct{} // vrtCrash: the process dies here; no target defer runs, only vrtCatchCrash sees it
 
 func isEnginePanic(r interface{}) bool {
 	switch r.(type) {
-	case pathInfeasible, pathEnd, modelAbort, boundExceeded, infraError, blocked:
+	case pathInfeasible, pathEnd, modelAbort, boundExceeded, infraError, blocked, crashPanic:
 		return true
 	}
 	return false
@@ -67,6 +68,7 @@ type Explorer struct {
 	Replay      map[string]string // concrete re-execution (R2): input name -> value
 	Harness     string
 	ContinueAfterViolation bool
+	inPath      bool
 	SymClock    bool // time.Now() is a fresh non-decreasing symbol
 	FPConv      bool
 
@@ -391,7 +393,9 @@ func (e *Explorer) violation(kind, msg string, extra []*Term) {
 	}
 	if len(e.Viol) >= e.MaxViol {
 		e.work = nil
-		panic(pathEnd{"violation cap reached"})
+		if e.inPath {
+			panic(pathEnd{"violation cap reached"})
+		}
 	}
 }
 
@@ -494,7 +498,9 @@ func Explore(run func() interface{}) {
 		e.frozen = map[*value]string{}
 		e.reached = map[string]bool{}
 		tRun := time.Now()
+		e.inPath = true
 		err := run()
+		e.inPath = false
 		switch x := err.(type) {
 		case nil:
 		case pathInfeasible:
@@ -535,6 +541,12 @@ func Explore(run func() interface{}) {
 
 func panicString(p targetPanic) string {
 	s := toString(p.v)
+	func() {
+		defer func() { recover() }()
+		if m, ok := callStringer(&frame{i: theInterp}, p.v); ok {
+			s = m
+		}
+	}()
 	if len(s) > 300 {
 		s = s[:300]
 	}
